@@ -890,6 +890,9 @@ class Engine:
                 raise Unsupported('binop ' + type(op).__name__)
             except ZeroDivisionError:
                 raise Unsupported('concrete division by zero')
+        if isinstance(a, Arr) and not isinstance(b, Arr) and isinstance(op, (ast.Add, ast.Sub, ast.Mult)) and not self.specmode:
+            from . import library
+            return library.array_scalar_op(self, st, op, a, b, n)
         if isinstance(a, Arr) or isinstance(b, Arr):
             raise Unsupported('whole-array arithmetic ' + (norm_src(n) if n is not None else ''))
         if isinstance(op, ast.Pow) and isinstance(b, (int, float)) and not isinstance(b, bool) and isinstance(a, SV):
